@@ -926,7 +926,15 @@ class GitBranch(ForeignBranch):
             self._lock_ref()
             self._lock_mode = "w"
             self._lock_count = 1
-        self.repository.lock_write()
+        try:
+            self.repository.lock_write()
+        except BaseException:
+            # Undo what this call did, as a failed unlock() would not.
+            self._lock_count -= 1
+            if self._lock_count == 0:
+                self._unlock_ref()
+                self._lock_mode = None
+            raise
         return lock.LogicalLockResult(self.unlock)
 
     def leave_lock_in_place(self):
